@@ -45,11 +45,11 @@ BUILDS = [dict(name="ripser_harness_f", src="ripser_harness.cpp"),
           dict(name="ripser_harness_k", src="ripser_harness.cpp", defines=("GUDHI_FORCE_FAKE_UINT128",))]
 BUILD_NAMES = ["float", "double", "float+fallback_uint128"]
 # recorded traces: build index -> (kind, events, max_simplices)
-QUICK_TRACES = {0: [("dense", 200, 300), ("sparse", 200, 300), ("boundary", 12, 300), ("wide", 50, 300), ("deep", 15, 300)],
-                1: [("dense", 200, 300), ("sparse", 150, 300), ("wide", 40, 300)],
+QUICK_TRACES = {0: [("dense", 200, 300), ("sparse", 200, 300), ("boundary", 12, 300), ("wide", 50, 300), ("deep", 15, 300), ("linkage", 6, 300)],
+                1: [("dense", 200, 300), ("sparse", 150, 300), ("wide", 40, 300), ("linkage", 4, 300)],
                 2: [("sparse", 100, 300), ("wide", 60, 300), ("deep", 30, 300)]}
 THOROUGH_TRACES = {0: [("dense", 1200, 300), ("dense", 250, 700), ("sparse", 1200, 300), ("sparse", 250, 700), ("boundary", 40, 300),
-                       ("wide", 300, 300), ("wide", 100, 700), ("deep", 100, 300)],
+                       ("wide", 300, 300), ("wide", 100, 700), ("deep", 100, 300), ("linkage", 40, 300)],
                    1: [("dense", 1200, 300), ("dense", 250, 700), ("sparse", 1200, 300), ("sparse", 250, 700), ("wide", 300, 300),
                        ("deep", 60, 300)],
                    2: [("dense", 300, 300), ("sparse", 800, 300), ("wide", 400, 300), ("wide", 100, 700), ("deep", 150, 300)]}
